@@ -216,6 +216,11 @@ var $sliceToGoArray = (slice, arrayPtrType) => {
         return arrayPtrType.nil; // Nil slice converts to nil array pointer.
     }
     if (slice.$array.constructor !== Array) {
+        if (slice.$offset == 0 && slice.$array.length == arrayType.len) {
+            // The whole backing array: keep its identity, so that the result compares equal
+            // to other pointers to the same array.
+            return slice.$array;
+        }
         return slice.$array.subarray(slice.$offset, slice.$offset + arrayType.len);
     }
     if (slice.$offset == 0 && slice.$length == slice.$capacity && slice.$length == arrayType.len) {
